@@ -265,7 +265,8 @@ impl Iterator for SplitWith {
         use KValue::{Bool, Str};
 
         let start = self.start;
-        if start < self.input.len() {
+        // `<=`: a separator at the very end is followed by a last, empty part (as in `Split`)
+        if start <= self.input.len() {
             let mut end = None;
             let mut grapheme_len = 0;
 
@@ -301,9 +302,18 @@ impl Iterator for SplitWith {
                 }
             }
 
-            let end = end.unwrap_or(self.input.len());
+            let end = match end {
+                Some(end) => {
+                    self.start = end + grapheme_len;
+                    end
+                }
+                None => {
+                    // The last part has been reached
+                    self.start = self.input.len() + 1;
+                    self.input.len()
+                }
+            };
             let output = Str(self.input.with_bounds(start..end).unwrap());
-            self.start = end + grapheme_len;
 
             Some(Output::Value(output))
         } else {
